@@ -24,23 +24,23 @@ Theorem sdp_check_spec (w : Rv) (tol : R) :
   (check_sdpR w tol = SdpValueError <-> tol < 0) /\
   (0 <= tol -> (check_sdpR w tol = SdpNonPSD <-> exists a, In a w /\ a < - tol)) /\
   (0 <= tol -> (check_sdpR w tol = SdpNotDefinite <->
-                (forall a, In a w -> - tol <= a) /\ exists a, In a w /\ Rabs a < tol)) /\
+                (forall a, In a w -> - tol <= a) /\ exists a, In a w /\ Rabs a <= tol)) /\
   (0 <= tol -> (check_sdpR w tol = SdpDefinite <->
-                forall a, In a w -> - tol <= a /\ tol <= Rabs a)).
+                forall a, In a w -> - tol <= a /\ tol < Rabs a)).
 Proof.
-  unfold check_sdp. cbn [oltb oopp o0 ROps].
-  set (f1 := fun a : R => Rltb a (- tol)). set (f2 := fun a : R => Rltb (@oabs ROps a) tol).
+  unfold check_sdp. cbn [oltb oleb oopp o0 ROps].
+  set (f1 := fun a : R => Rltb a (- tol)). set (f2 := fun a : R => Rleb (@oabs ROps a) tol).
   change (existsb (fun a : T ROps => Rltb a (- tol)) w) with (existsb f1 w).
-  change (existsb (fun a : T ROps => Rltb (oabs ROps a) tol) w) with (existsb f2 w).
+  change (existsb (fun a : T ROps => Rleb (oabs ROps a) tol) w) with (existsb f2 w).
   assert (P1: existsb f1 w = true -> exists a, In a w /\ a < - tol).
   { intro H. apply existsb_exists in H as [a [H1 H2]]. exists a. split; auto. apply Rltb_true; auto. }
   assert (N1: existsb f1 w = false -> forall a, In a w -> - tol <= a).
   { intros H a Ha. apply (existsb_false_forall f1 w H) in Ha. apply Rltb_false in Ha. auto. }
-  assert (P2: existsb f2 w = true -> exists a, In a w /\ Rabs a < tol).
-  { intro H. apply existsb_exists in H as [a [H1 H2]]. exists a. split; auto. apply Rltb_true in H2.
+  assert (P2: existsb f2 w = true -> exists a, In a w /\ Rabs a <= tol).
+  { intro H. apply existsb_exists in H as [a [H1 H2]]. exists a. split; auto. apply Rleb_true in H2.
     rewrite oabs_Rabs in H2. auto. }
-  assert (N2: existsb f2 w = false -> forall a, In a w -> tol <= Rabs a).
-  { intros H a Ha. apply (existsb_false_forall f2 w H) in Ha. apply Rltb_false in Ha. rewrite oabs_Rabs in Ha. auto. }
+  assert (N2: existsb f2 w = false -> forall a, In a w -> tol < Rabs a).
+  { intros H a Ha. apply (existsb_false_forall f2 w H) in Ha. apply Rleb_false in Ha. rewrite oabs_Rabs in Ha. auto. }
   destruct (Rltb tol 0) eqn:Et; [apply Rltb_true in Et | apply Rltb_false in Et];
   destruct (existsb f1 w) eqn:E1; destruct (existsb f2 w) eqn:E2;
   try (specialize (P1 eq_refl)); try (specialize (N1 eq_refl)); try (specialize (P2 eq_refl)); try (specialize (N2 eq_refl));
